@@ -80,13 +80,14 @@ class World:
         m.f["g2alpha"].val = self.g2.scale(ALPHA)
         return m
 
-    def attrs(self, items, omit_all):
-        """items: [(idx, value Poly | None for omitFromKeys)] ascending"""
+    def attrs(self, items, omit_all, flagged=()):
+        """items: [(idx, value Poly | None for omitFromKeys)] ascending; `flagged`: indices whose entry carries omitFromKeys together with a
+        NON-ZERO id (the C++ API allows it; the flag concerns keys only, so encrypt / sign / verify / precompute must treat the entry like any other)"""
         arr = []
         for (idx, v) in items:
             a = self.new(NS + "Attribute")
             a.f["idx"].v = idx
-            a.f["omitFromKeys"].v = 1 if v is None else 0
+            a.f["omitFromKeys"].v = 1 if (v is None or idx in flagged) else 0
             a.f["id"].val = 0 if v is None else v          # Go binding: nil -> id = 0, omitFromKeys
             arr.append(a)
         al = self.new(NS + "AttributeList")
@@ -581,8 +582,10 @@ def gen_sign(L):
             for shape in shapes(l):
                 ext_choices = [[0, 1] if s == FREE else [0] for s in shape]
                 for ext in itertools.product(*ext_choices):
-                    for mode in ("list", "null", "precomputed"):
+                    for mode in ("list", "null", "precomputed", "list-flagged"):
                         if mode == "null" and any(ext):
+                            continue
+                        if mode == "list-flagged" and not any(ext):
                             continue
                         tag = "l=%d,key=%s,extend=%s,mode=%s" % (l, stag(shape), "".join(map(str, ext)), mode)
 
@@ -604,6 +607,9 @@ def gen_sign(L):
                                 pre = w.new(NS + "Precomputed")
                                 pre.f["prodexp"].val = w.prod(S)
                                 w.call("sign_precomputed", sig, w.params(), key, Ptr(w.attrs(S, 0)), pre, msg, Cell("rng"))
+                            elif mode == "list-flagged":
+                                # the extension entries carry omitFromKeys (and a non-zero id): irrelevant for signing
+                                w.call("sign", sig, w.params(), key, Ptr(w.attrs(S, 0, flagged=[i for i, e in enumerate(ext) if e])), msg, Cell("rng"))
                             else:
                                 w.call("sign", sig, w.params(), key, Ptr(w.attrs(S, 0)), msg, Cell("rng"))
                             a1 = sig.f["a1"].val
